@@ -319,6 +319,7 @@ PROPS["C16"] = {
         {"spec": "Crawler.tla", "cfg": "Crawler_quick.cfg"},
         {"spec": "Crawler.tla", "cfg": "Crawler_thorough.cfg", "tier": "thorough", "timeout": 3000, "heap": "20g"},
         {"spec": "Crawler.tla", "cfg": "Crawler_neg_dupseed.cfg", "expect": "violation"},
+        {"spec": "Crawler.tla", "cfg": "Crawler_neg_seenearly.cfg", "expect": "violation"},
     ],
     "drivers": [{"test": "TestFullRT", "trace_spec": "FullRTTrace.tla", "trace_cfg": "FullRTTrace.cfg", "inv_cfg": {"C16": "FullRTTrace_C16.cfg"}}],
     "assumptions": [
